@@ -23,7 +23,7 @@ func (o Op) String() string {
 	switch o.Kind {
 	case "scan", "count":
 		return fmt.Sprintf("s%d.%s", o.S, o.Kind)
-	case "remove", "findGet", "curRemove":
+	case "remove", "findGet", "curRemove", "updateKey", "curUpdateKey":
 		return fmt.Sprintf("s%d.%s(%d)", o.S, o.Kind, o.K)
 	}
 	return fmt.Sprintf("s%d.%s(%d,%s+%dB)", o.S, o.Kind, o.K, o.Tag, o.Size)
@@ -188,7 +188,7 @@ func applyOp(b Store, m *Model, op Op, writing bool) (string, error) {
 	}
 	if !writing {
 		switch op.Kind {
-		case "add", "addIfNotExist", "upsert", "update", "remove", "curUpdate", "curRemove":
+		case "add", "addIfNotExist", "upsert", "update", "remove", "curUpdate", "curRemove", "updateKey", "curUpdateKey":
 			return applyReadOnlyWrite(b, m, op, val)
 		}
 	}
@@ -230,6 +230,25 @@ func applyOp(b Store, m *Model, op Op, writing bool) (string, error) {
 			return "", err
 		}
 		return cmp("Remove", ok, m.RemoveUnique(op.K)), nil
+	case "updateKey": // key-only update (the value is not fetched): changes nothing the model sees
+		ok, err := b.UpdateKey(Ctx, op.K)
+		if err != nil {
+			return "", err
+		}
+		return cmp("UpdateKey", ok, m.Has(op.K)), nil
+	case "curUpdateKey":
+		ok, err := b.Find(Ctx, op.K, false)
+		if err != nil {
+			return "", err
+		}
+		if s := cmp("Find", ok, m.Has(op.K)); s != "" || !ok {
+			return s, nil
+		}
+		ok, err = b.UpdateCurrentKey(Ctx, op.K)
+		if err != nil {
+			return "", err
+		}
+		return cmp("UpdateCurrentKey", ok, true), nil
 	case "findGet", "curUpdate", "curRemove":
 		ok, err := b.Find(Ctx, op.K, false)
 		if err != nil {
@@ -312,6 +331,12 @@ func applyReadOnlyWrite(b Store, m *Model, op Op, val string) (string, error) {
 	case "curRemove":
 		if f, _ := b.Find(Ctx, op.K, false); f {
 			ok, err = b.RemoveCurrentItem(Ctx)
+		}
+	case "updateKey":
+		ok, err = b.UpdateKey(Ctx, op.K)
+	case "curUpdateKey":
+		if f, _ := b.Find(Ctx, op.K, false); f {
+			ok, err = b.UpdateCurrentKey(Ctx, op.K)
 		}
 	}
 	if ok && err == nil {
